@@ -21,6 +21,7 @@ mod runner;
 mod seams;
 mod simio;
 mod supply;
+mod typed;
 mod world;
 
 use checks::Tier;
